@@ -3,9 +3,67 @@ package c01
 import (
 	"testing"
 
+	"pgregory.net/rapid"
+
 	"verifh/internal/ev"
+	"verifh/internal/gen"
+	"verifh/internal/hgen"
+	"verifh/internal/l2"
 )
 
-func runL2(c Case) *ev.Verdict { return &ev.Verdict{} }
+func runL2(c Case) *ev.Verdict {
+	v, tr := l2.RunHistory(c.H, l2.Opts{P: "C01", Trusted: true, Batch: c.Batch, Fatal: c.Fatal, FatalKind: c.FatalKind})
+	classify(v, tr)
+	if c.Fatal > 0 && tr.Failed > 0 {
+		v.Class("fatal-op-mid-request")
+		v.NonTrivial = true
+	}
+	return v
+}
 
-func campaignL2(t *testing.T) {}
+func drawL2(rt *rapid.T) Case {
+	cfg := hgen.DefaultCfg()
+	cfg.AliasLabels = true
+	cfg.MinLen, cfg.MaxLen = 4, 24
+	c := Case{Level: "L2", H: hgen.DrawHistory(rt, cfg)}
+	nb := rapid.IntRange(1, 4).Draw(rt, "nbatch")
+	for i := 0; i < nb; i++ {
+		c.Batch = append(c.Batch, rapid.IntRange(1, 6).Draw(rt, "batch"))
+	}
+	if rapid.IntRange(0, 9).Draw(rt, "fatal?") < 3 {
+		nops := 0
+		for _, s := range c.H.Steps {
+			if s.Op != nil {
+				nops++
+			}
+		}
+		if nops > 0 {
+			c.Fatal = rapid.IntRange(1, nops).Draw(rt, "fatalidx")
+			c.FatalKind = rapid.IntRange(1, 2).Draw(rt, "fatalkind")
+			// make sure an operation with a visible effect follows the fatal one
+			// in the history (it shares the request when the batch allows)
+			var steps []hgen.Step
+			n := 0
+			for _, s := range c.H.Steps {
+				steps = append(steps, s)
+				if s.Op != nil {
+					n++
+					if n == c.Fatal {
+						steps = append(steps, hgen.Step{Op: &gen.Op{ID: 100000, NI: "DEFAULT", Kind: gen.NH, Act: gen.ADD, Key: "4", IP: "203.0.113.9"}})
+					}
+				}
+			}
+			c.H.Steps = steps
+		}
+	}
+	return c
+}
+
+func campaignL2(t *testing.T) {
+	col := ev.C()
+	rapid.Check(t, func(rt *rapid.T) {
+		c := drawL2(rt)
+		v := runCase(c)
+		col.Check(rt, ev.JSON(c), v)
+	})
+}
